@@ -260,12 +260,8 @@ class OutgoingRIB(Cache):
         # remove previous announcement if cancelled/replaced before being sent
         prev_route = new_nlri.get(route_index, None)
         if prev_route:
-            prev_route_index = prev_route.index()
-            prev_route_attr_index = prev_route.attributes.index()
-            attr_af_nlri.setdefault(prev_route_attr_index, {}).setdefault(route_family, RIBdict({})).pop(
-                prev_route_index,
-                None,
-            )
+            # every announce queued for it, not only the latest (it may sit under several attributes)
+            self._drop_queued(route_family, route_index)
             # Also remove from _new_nlri since we're withdrawing it
             new_nlri.pop(route_index, None)
 
@@ -277,6 +273,16 @@ class OutgoingRIB(Cache):
 
         # Update cache to remove the announced route
         self.update_cache_withdraw(nlri)
+
+    def _drop_queued(self, route_family: FamilyTuple, route_index: bytes, after: bytes | None = None) -> None:
+        # forget the announces queued for this NLRI: all of them, or only those which would be
+        # sent after the ones sharing the attributes `after` (updates() follows the dict order)
+        drop = after is None
+        for attr_index, per_family in self._new_attr_af_nlri.items():
+            if drop:
+                per_family.get(route_family, {}).pop(route_index, None)
+            elif attr_index == after:
+                drop = True
 
     def add_to_resend(self, route: Route) -> None:
         if not self.enabled:
@@ -336,6 +342,12 @@ class OutgoingRIB(Cache):
         # Note: Cancel logic removed - announce does NOT cancel pending withdraw
         # This allows withdraw+announce sequences to both be sent
         # See plan/plan-announce-cancels-withdraw-optimization.md for future optimization
+
+        # an announce already queued for this NLRI under other attributes may only stay queued
+        # if it is sent before this one: the peer must end up with the latest
+        prev_route = new_nlri.get(route_index, None)
+        if prev_route is not None and prev_route.attributes.index() != route_attr_index:
+            self._drop_queued(route_family, route_index, route_attr_index)
 
         # add the route to the list to be announced
         attr_af_nlri.setdefault(route_attr_index, {}).setdefault(route_family, RIBdict({}))[route_index] = route
